@@ -86,8 +86,9 @@ def _same(a, b, tol):
         return bool(a == b)
     if np.isnan(a) and np.isnan(b):
         return True
-    if tol == 0:
-        return bool(a == b)
+    # never bit-for-bit across *different* requests: NumPy's vectorised loops may round the last
+    # bit differently depending on where an element sits in the array
+    tol = max(tol, 1e-13)
     return bool(abs(a - b) <= tol * max(abs(a), abs(b), 1e-300) + 0.0)
 
 
